@@ -56,6 +56,8 @@ class C09(InvProp):
         # unequal numbers of equations and unknowns after links were switched, is a violation of C09; anything else belongs to C16
         tb = out.exc_tb or ''
         msg = str(out.exc)
+        if 'number of constraints and variables' in msg and inv.undetermined_heads(scn, getattr(out.rec, 'wn', None)):
+            return None      # the open C16 finding (a junction whose head is in no equation), not the isolation bookkeeping
         if 'isolated' in tb or 'network_isolation' in tb or 'number of constraints and variables' in msg:
             return V('c09.isolation_raises', '%s@%s' % (type(out.exc).__name__, out.exc_site or ''), (msg + ' | ' + tb)[-700:])
         return None
